@@ -94,7 +94,7 @@ impl Request {
             return Err(Error::InvalidLength("Request"));
         }
 
-        if self.block_begin + self.block_length > piece_length as u32 {
+        if self.block_begin as u64 + self.block_length as u64 > piece_length as u64 {
             return Err(Error::InvalidLength("Request"));
         }
 
